@@ -687,19 +687,20 @@ type ChCase struct {
 	Backend string `json:"backend"`
 	Iter    int    `json:"iter"`
 	Workers int    `json:"workers"`
-	Mode    []int  `json:"mode"` // per worker: 0 add-get-remove, 1 add-add-purge, 2 add-remove-visit
+	Mode    []int  `json:"mode"` // per worker: 0 add-get-remove, 1 add-add-purge, 2 add-remove-visit, 3 add-list a purging sibling-remove
 }
 
 var propChurn = hx.Prop[ChCase]{
 	ID: pid, Name: "churn",
 	Rule: "3 workers, each on its own mailbox - names whose hashes share the file store's level-1 directory but differ in the next digit - " +
-		"loop 100-400 times over deliver/read/remove (or purge, or visit), so every mailbox keeps toggling between empty (directory and " +
+		"loop 100-400 times over deliver/read/remove (or purge, or visit, or list the purging sibling's mailbox; one purger and one cross-mailbox reader in every case), so every mailbox keeps toggling between empty (directory and " +
 		"empty parents removed) and non-empty (directories created) while its siblings do the same; no operation may fail, every delivered " +
 		"message must be readable until its owner removes it, and all mailboxes are empty at the end; non-trivial = file back-end",
-	Quick: 6, Thorough: 60,
+	Quick: 10, Thorough: 60,
 	Gen: func(t *rapid.T) ChCase {
 		return ChCase{Backend: rapid.SampledFrom([]string{"file", "file", "file", "mem"}).Draw(t, "backend"), Iter: rapid.IntRange(100, 400).Draw(t, "iter"), Workers: 3,
-			Mode: rapid.SliceOfN(rapid.IntRange(0, 2), 3, 3).Draw(t, "mode")}
+			// always one worker that purges and one that reads across mailboxes, in any position
+			Mode: rapid.Permutation([]int{1, rapid.IntRange(2, 3).Draw(t, "reader"), rapid.IntRange(0, 3).Draw(t, "third")}).Draw(t, "mode")}
 	},
 	Run: func(c ChCase) *hx.Outcome {
 		o := &hx.Outcome{}
@@ -744,6 +745,23 @@ var propChurn = hx.Prop[ChCase]{
 						}
 						if err := st.PurgeMessages(box); err != nil {
 							fail("worker %d iteration %d: PurgeMessages(%s): %v", wi, i, box, err)
+							return
+						}
+					case 3:
+						// list the mailbox of a worker that keeps purging its own: whatever moment the
+						// listing falls in, it is a listing (possibly empty), never an error
+						target := box
+						for wj, m := range c.Mode {
+							if m == 1 && wj < c.Workers {
+								target = names[wj%len(names)]
+							}
+						}
+						if _, err := st.GetMessages(target); err != nil {
+							fail("worker %d iteration %d: GetMessages(%s) while its owner delivers and purges: %v", wi, i, target, err)
+							return
+						}
+						if err := st.RemoveMessage(box, id); err != nil {
+							fail("worker %d iteration %d: RemoveMessage(%s,%s): %v", wi, i, box, id, err)
 							return
 						}
 					case 2:
